@@ -1,14 +1,69 @@
 /-
-  Driver handlers for the Armor model. `handle op args` returns `none` when the
-  operation is not one of this file's.
+  Driver handlers for the Armor model: `aenc`, `adec`, `aw` (writer run against a
+  faulty destination), `ar` (reader run with read sizes).
 -/
 import AgeModel.Wire
+import AgeModel.Armor
 namespace AgeModel
 namespace Exec
 namespace Armor
+open AgeModel.Armor Wire AgeModel.Stream
+
+def maxWhitespace : Nat := 1024
+
+def outName : AOut → String
+  | .eof => "eof" | .err => "err"
+
+def werr : Option WErr → String
+  | none => "ok" | some .dst => "dsterr" | some .closed => "closed"
+
+def parseAOps (s : String) : Option (List AOp) :=
+  if s = "-" then some [] else
+  (splitOn s ';').mapM fun t =>
+    if t = "c" then some AOp.close
+    else match splitOn t ':' with
+      | ["w", data, segs] => do
+        let d ← unhex data
+        let sg ← if segs = "-" then some [] else (splitOn segs ',').mapM nat?
+        pure (AOp.write d sg)
+      | _ => none
+
+def stepTrace {S : DstSpec} : AWriter S → List AOp → List String → AWriter S × List String
+  | a, [], acc => (a, acc.reverse)
+  | a, op :: ops, acc =>
+    let (a', e) := a.step op
+    stepTrace a' ops (s!"{werr e},{a'.dst.acc.length}" :: acc)
+
+def runW (S : DstSpec) (s0 : S.σ) (ops : List AOp) : String :=
+  let (a, tr) := stepTrace (AWriter.new ({ acc := [], st := s0 } : Dst S)) ops []
+  s!"{if tr.isEmpty then "-" else ";".intercalate tr} acc={sum a.dst.acc}"
 
 def handle (op : String) (args : List String) : Option String :=
   match op, args with
+  | "aenc", [b] => some <| match unhex b with | some b => sum (armor b) | none => "bad-args"
+  | "adec", [w, fail, t] =>
+    some <| match nat? w, bool? fail, unhex t with
+    | some w, some f, some t => let (out, o) := read w f t; s!"{outName o} out={sum out}"
+    | _, _, _ => "bad-args"
+  | "ar", [w, fail, t, sizes] =>
+    some <| match nat? w, bool? fail, unhex t, (if sizes = "-" then some [] else (splitOn sizes ',').mapM nat?) with
+    | some w, some f, some t, some sizes =>
+      let tr := (AReader.new t).trace w f sizes
+      let all : Bytes := (tr.map (·.1)).flatten
+      let steps := tr.map fun (b, e) => s!"{b.length},{match e with | none => "ok" | some o => outName o}"
+      s!"{";".intercalate steps} out={sum all}"
+    | _, _, _, _ => "bad-args"
+  | "aw", [plan, ops] =>
+    some <| match parseAOps ops with
+    | some ops =>
+      match splitOn plan ':' with
+      | ["ok"] => runW DstSpec.perfect () ops
+      | ["off", l, p, o] =>
+        match nat? l, bool? p, bool? o with
+        | some l, some p, some o => runW (DstSpec.atOffset l p o) (false : Bool) ops
+        | _, _, _ => "bad-plan"
+      | _ => "bad-plan"
+    | none => "bad-args"
   | _, _ => none
 
 end Armor
